@@ -61,6 +61,13 @@ fn main() {
         suites::dump_ext(seed, n, &out);
         return;
     }
+    if args.len() >= 3 && args[1] == "task_sexp" {
+        // one line per directory given
+        for d in &args[2..] {
+            println!("{}", suites::task_sexp(&PathBuf::from(d)));
+        }
+        return;
+    }
     if args.len() < 3 || args[1] != "gen" {
         eprintln!("usage: verif-harness gen <suite> --seed S --n N --out DIR [--corpus DIR]");
         std::process::exit(2);
